@@ -376,9 +376,9 @@ impl<'source> Iterator for Lexer<'source> {
                     self.comment_depth += 1;
                     continue;
                 }
-                | Some((Ok(Tok::CommentClose), _)) => {
+                | Some((Ok(Tok::CommentClose), range)) => {
                     if self.comment_depth == 0 {
-                        break None;
+                        break Some((range.start, Tok::CommentClose, range.end));
                     }
                     self.comment_depth -= 1;
                 }
